@@ -312,6 +312,7 @@ pub const APT_SOURCE: &[F] = &[
     F("Package", true, V::Word),
     F("Binary", false, V::CommaWords),
     F("Maintainer", false, V::Identity),
+    F("Uploaders", false, V::Uploaders),
     F("Build-Depends", false, V::Rel),
     F("Build-Depends-Indep", false, V::Rel),
     F("Build-Conflicts", false, V::Rel),
